@@ -68,88 +68,24 @@ def place(pepA, ia, pepB, ib, d, rng):
     return pepB
 
 
-def run_case(spec):
-    res = Res()
-    rng = random.Random(spec["seed"])
-    c = rng.random()
-    if c < 0.55:
-        d = LIMIT + rng.choice([-1, 1]) * rng.choice([0.002, 0.003, 0.005, 0.01, 0.02, 0.05, 0.1])
-        dcls = "near"
-    elif c < 0.8:
-        d = rng.uniform(1.8, 2.45)
-        dcls = "inside"
-    else:
-        d = rng.uniform(2.55, 3.2)
-        dcls = "outside"
-    pool = ["ALA", "GLY", "SER", "LEU", "VAL", "THR", "LYS", "ASN"]
-    posA, posB = rng.choice("NIC"), rng.choice("NIC")
-
-    def seq(pos):
-        n = rng.randint(3, 5)
-        s = [rng.choice(pool) for _ in range(n)]
-        s[{"N": 0, "I": n // 2, "C": n - 1}[pos]] = "CYS"
-        return s
-
-    sa, sb = seq(posA), seq(posB)
-    pepA, pepB = S.peptide(sa, rng), S.peptide(sb, rng)
-    place(pepA, sa.index("CYS"), pepB, sb.index("CYS"), d, rng)
-    decoy = rng.choice(["none", "none", "outside", "inside"])
-    chains = [pepA, pepB]
-    if decoy != "none":
-        sc = ["GLY", "CYS", "ALA"]
-        pepC = S.peptide(sc, rng)
-        dd = 2.62 if decoy == "outside" else 2.3
-        # approach cysteine A from the side opposite to B as far as possible
-        tmp = [dict(r, atoms=list(r["atoms"])) for r in pepA]
-        place(tmp, sa.index("CYS"), pepC, 1, dd, rng)
-        # move C to the side: rotate about SG_A->centroid axis is not needed; keep if far from B
-        ptsB = np.array([x for r in pepB for _, x in r["atoms"]])
-        ptsC = np.array([x for r in pepC for _, x in r["atoms"]])
-        if np.sqrt(((ptsB[:, None] - ptsC[None]) ** 2).sum(-1)).min() < 1.5:
-            decoy = "none"
-        else:
-            chains.append(pepC)
-    scheme = rng.choice(["diff", "diff", "same_ter", "blank", "same_number"])
-    order = rng.choice(["AB", "BA"])
-    ordered = chains if order == "AB" else [chains[1], chains[0]] + chains[2:]
-    entries = []
-    for k, ch in enumerate(ordered):
-        cid = {"diff": "ABC"[k], "same_ter": "A", "blank": "", "same_number": "ABC"[k]}[scheme]
-        start = {"diff": 1 + 10 * k, "same_ter": 1 + 50 * k, "blank": 1, "same_number": 7}[scheme]
-        entries.append({"id": cid, "start": start, "residues": ch})
-    items, truth = S.assemble(entries)
-    text = pdbfmt.to_text(items)
-    # ground truth from the file
+def file_truth(text):
+    """Geometric ground truth from the file as written: SG positions, the CA of the same residue (backbone atoms never
+    move; SG may be rotated about chi1 by debumping), pair distances, partners within the limit."""
     recs = pdbfmt.read_first_model(text)
-    sgs = [(i, a) for i, a in enumerate(recs) if a["name"] == "SG"]
+    sgs = [(i, a) for i, a in enumerate(recs) if a["name"] == "SG" and a["resn"] in ("CYS", "CYX", "CYM")]
     P = [np.array([a["x"], a["y"], a["z"]]) for _, a in sgs]
-    # CA of the same residue (backbone atoms never move; SG may be rotated about chi1 by debumping)
     CA = []
     for i, a in sgs:
-        ca = next(b for b in recs[max(0, i - 8):i + 1] if b["name"] == "CA" and b["resi"] == a["resi"] and b["chain"] == a["chain"]
-                  and b.get("seg") == a.get("seg"))
-        CA.append(np.array([ca["x"], ca["y"], ca["z"]]))
+        same = [b for b in recs[max(0, i - 30):i + 30] if b["resi"] == a["resi"] and b["chain"] == a["chain"]
+                and b["icode"] == a["icode"] and b.get("seg") == a.get("seg") and b["name"] == "CA"]
+        CA.append(np.array([same[0]["x"], same[0]["y"], same[0]["z"]]) if same else None)
     dist = {(i, j): float(np.linalg.norm(P[i] - P[j])) for i in range(len(P)) for j in range(i)}
-    if any(abs(v - LIMIT) < 1e-6 for v in dist.values()):
-        return res
     partners = {i: [j for j in range(len(P)) if j != i and dist[(max(i, j), min(i, j))] < LIMIT] for i in range(len(P))}
-    ff = common.FFS[spec["seed"] % 6]
-    opts = [f"--ff={ff}"] + rng.choice([[], [], ["--noopt"], ["--nodebump"], ["--nodebump", "--noopt"]])
-    r = pipeline.run(text, opts, workname="c13")
-    res.count("placements")
-    wit = {"d_requested": d, "distances": {f"{i}-{j}": round(v, 4) for (i, j), v in dist.items()}, "scheme": scheme,
-           "order": order, "positions": posA + posB, "decoy": decoy, "opts": opts, "seed": spec["seed"]}
-    if not r.ok:
-        res.count("runs_failed")
-        res.note(f"failed: {type(r.exc).__name__} {str(r.exc)[:80]} {wit}")
-        return res
-    if dcls == "near":
-        res.count("near_limit")
-    main = dist[(1, 0)]
-    res.cell("inside" if main < LIMIT else "outside", dcls, scheme, order, decoy)
-    if dcls == "near" or order == "BA" or scheme in ("same_ter", "blank", "same_number") or decoy != "none":
-        res.nt("inside" if main < LIMIT else "outside", round(abs(main - LIMIT), 3) if dcls == "near" else dcls, scheme,
-               order, posA + posB, decoy, ff)
+    return P, CA, dist, partners
+
+
+def judge(res, r, ff, P, CA, dist, partners, wit):
+    """Oracle on the returned biomolecule and the PQR lines; -> {file SG index: residue} or None."""
     # map file SG order -> residues of the biomolecule by coordinates
     cys = []
     for residue in r.bio.residues:
@@ -160,7 +96,7 @@ def run_case(spec):
     bykey = dict(cys)
     if len(bykey) != len(P) or None in bykey:
         res.violate("cys/lost", f"{len(P)} cysteine SG atoms in the file, {len(bykey)} identified in the result", **wit)
-        return res
+        return None
     model = ffmap.builtin(ff)
     pq = pipeline.parse_pqr(r.pqr_text)
     written = match.written_atoms(r.bio, r.missed)
@@ -212,6 +148,83 @@ def run_case(spec):
                 nearest = min((dist[(max(i, j), min(i, j))] for j in range(len(P)) if j != i), default=None)
                 res.violate("free-cysteine/treated-as-bridged", f"nearest SG at {nearest:.4f} >= 2.5 but {residue}: "
                             + "; ".join(problems), **w)
+    return bykey
+
+
+def run_case(spec):
+    res = Res()
+    rng = random.Random(spec["seed"])
+    c = rng.random()
+    if c < 0.55:
+        d = LIMIT + rng.choice([-1, 1]) * rng.choice([0.002, 0.003, 0.005, 0.01, 0.02, 0.05, 0.1])
+        dcls = "near"
+    elif c < 0.8:
+        d = rng.uniform(1.8, 2.45)
+        dcls = "inside"
+    else:
+        d = rng.uniform(2.55, 3.2)
+        dcls = "outside"
+    pool = ["ALA", "GLY", "SER", "LEU", "VAL", "THR", "LYS", "ASN"]
+    posA, posB = rng.choice("NIC"), rng.choice("NIC")
+
+    def seq(pos):
+        n = rng.randint(3, 5)
+        s = [rng.choice(pool) for _ in range(n)]
+        s[{"N": 0, "I": n // 2, "C": n - 1}[pos]] = "CYS"
+        return s
+
+    sa, sb = seq(posA), seq(posB)
+    pepA, pepB = S.peptide(sa, rng), S.peptide(sb, rng)
+    place(pepA, sa.index("CYS"), pepB, sb.index("CYS"), d, rng)
+    decoy = rng.choice(["none", "none", "outside", "inside"])
+    chains = [pepA, pepB]
+    if decoy != "none":
+        sc = ["GLY", "CYS", "ALA"]
+        pepC = S.peptide(sc, rng)
+        dd = 2.62 if decoy == "outside" else 2.3
+        # approach cysteine A from the side opposite to B as far as possible
+        tmp = [dict(r, atoms=list(r["atoms"])) for r in pepA]
+        place(tmp, sa.index("CYS"), pepC, 1, dd, rng)
+        # move C to the side: rotate about SG_A->centroid axis is not needed; keep if far from B
+        ptsB = np.array([x for r in pepB for _, x in r["atoms"]])
+        ptsC = np.array([x for r in pepC for _, x in r["atoms"]])
+        if np.sqrt(((ptsB[:, None] - ptsC[None]) ** 2).sum(-1)).min() < 1.5:
+            decoy = "none"
+        else:
+            chains.append(pepC)
+    scheme = rng.choice(["diff", "diff", "same_ter", "blank", "same_number"])
+    order = rng.choice(["AB", "BA"])
+    ordered = chains if order == "AB" else [chains[1], chains[0]] + chains[2:]
+    entries = []
+    for k, ch in enumerate(ordered):
+        cid = {"diff": "ABC"[k], "same_ter": "A", "blank": "", "same_number": "ABC"[k]}[scheme]
+        start = {"diff": 1 + 10 * k, "same_ter": 1 + 50 * k, "blank": 1, "same_number": 7}[scheme]
+        entries.append({"id": cid, "start": start, "residues": ch})
+    items, truth = S.assemble(entries)
+    text = pdbfmt.to_text(items)
+    P, CA, dist, partners = file_truth(text)
+    if any(abs(v - LIMIT) < 1e-6 for v in dist.values()) or any(c is None for c in CA):
+        return res
+    ff = common.FFS[spec["seed"] % 6]
+    opts = [f"--ff={ff}"] + rng.choice([[], [], ["--noopt"], ["--nodebump"], ["--nodebump", "--noopt"]])
+    r = pipeline.run(text, opts, workname="c13")
+    res.count("placements")
+    wit = {"d_requested": d, "distances": {f"{i}-{j}": round(v, 4) for (i, j), v in dist.items()}, "scheme": scheme,
+           "order": order, "positions": posA + posB, "decoy": decoy, "opts": opts, "seed": spec["seed"]}
+    if not r.ok:
+        res.count("runs_failed")
+        res.note(f"failed: {type(r.exc).__name__} {str(r.exc)[:80]} {wit}")
+        return res
+    if dcls == "near":
+        res.count("near_limit")
+    main = dist[(1, 0)]
+    res.cell("inside" if main < LIMIT else "outside", dcls, scheme, order, decoy)
+    if dcls == "near" or order == "BA" or scheme in ("same_ter", "blank", "same_number") or decoy != "none":
+        res.nt("inside" if main < LIMIT else "outside", round(abs(main - LIMIT), 3) if dcls == "near" else dcls, scheme,
+               order, posA + posB, decoy, ff)
+    bykey = judge(res, r, ff, P, CA, dist, partners, wit)
+    if bykey is None:
+        return res
     res.sample = {"d": round(main, 4), "scheme": scheme, "order": order, "decoy": decoy, "opts": opts,
                   "states": [(str(rr), rr.has_atom("HG")) for _, rr in sorted(bykey.items())]}
     return res
